@@ -70,6 +70,15 @@ MapKeys == {"1", "2", "3"}        \* member names that are int32 map keys in the
 DefaultLimit == 10000
 Limit(lim) == IF lim = 0 THEN DefaultLimit ELSE lim
 
+\* nesting that skipping the value of an unknown member costs: JSON counts every object and array
+\* (skipJSONValue), text counts messages only (skipMessageValue); it must fit into the remaining budget
+RECURSIVE SkipDepth(_, _)
+SkipDepth(fmt, m) ==
+  IF m.v = "obj" THEN LET ds == {SkipDepth(fmt, m.sub[k]) : k \in 1..Len(m.sub)} IN
+                      1 + (IF ds = {} THEN 0 ELSE CHOOSE x \in ds : \A y \in ds : y <= x)
+  ELSE IF fmt = "json" /\ m.v \in {"arr0", "arr1"} THEN 1
+  ELSE 0
+
 \* result: [ok |-> accepted, pop |-> set of populated field numbers at this level, na |-> outside the modelled fragment]
 Rej == [ok |-> FALSE, pop |-> {}, na |-> FALSE]
 RECURSIVE Members(_, _, _, _, _, _, _, _, _), Msg(_, _, _, _, _)
@@ -86,7 +95,8 @@ Members(fmt, t, ms, i, seen, seenOo, budget, du, pop) ==
       num == El(f.num)
       scalarOk == (f.vk = "int" /\ m.v = "int") \/ (f.vk = "str" /\ m.v = "str")
   IN
-  IF f = NoField THEN (IF du THEN next(seen, seenOo, pop) ELSE Rej)        \* unknown name (the value is well-formed by construction)
+  IF f = NoField THEN                                                      \* unknown name (the value is well-formed by construction)
+     (IF du /\ SkipDepth(fmt, m) <= budget THEN next(seen, seenOo, pop) ELSE Rej)
   ELSE IF fmt = "json" THEN
      IF IntsHas(seen, num) THEN Rej                                        \* duplicate field, whatever its cardinality
      ELSE LET seen2 == IntsSet(seen, num) IN
@@ -145,6 +155,9 @@ ChainFrom(t, d) ==      \* members of a message of type t that has d-1 further l
   ELSE <<[n |-> "corecursive", v |-> "obj", sub |-> ChainFrom("T", d - 1)]>>
 Chain(d) == ChainFrom("T", d)
 NestAccepted(d, lim) == d <= Limit(lim)
+\* In the text format a map entry is itself written as a message { key: .. value { .. } } and counted as one:
+\* a chain of d messages that alternates map fields and plain fields has d \div 2 entries in it.
+NestLevels(fmt, via, d) == IF fmt = "text" /\ via = "map" THEN d + (d \div 2) ELSE d
 
 \* ---------------------------------------------------------------- Expect
 ExpectUniq(e) ==
@@ -155,7 +168,7 @@ ExpectUniq(e) ==
          \* message nesting (singular, repeated, map-valued, oneof member, skipped unknown value): exact boundary;
          \* arrays inside google.protobuf.Value are counted per array, not per message: only "far beyond the limit fails"
          IF e.via = "value" THEN (IF e.d >= 2 * Limit(e.lim) + 2 THEN [ran |-> TRUE, acc |-> FALSE] ELSE [ran |-> TRUE])
-         ELSE [ran |-> TRUE, acc |-> NestAccepted(e.d, e.lim)]
+         ELSE [ran |-> TRUE, acc |-> NestAccepted(NestLevels(e.fmt, e.via, e.d), e.lim)]
     [] e.op = "fuzz" -> [ran |-> TRUE]              \* totality: the call returned (a panic replaces the whole observation)
     [] e.op = "ints" -> ExpectInts(e)
 =============================================================================
